@@ -87,6 +87,8 @@ def minimise(mod, case: dict, result: dict, jobs: int, budget_s: float, log) -> 
         cur["_focus"] = result["focus"]
     if result.get("history") is not None:
         cur["history"] = result["history"]
+    if result.get("sessions") is not None:
+        cur["sessions"] = result["sessions"]
     shrinks = getattr(mod, "shrinks", None)
     rounds = 0
     while shrinks is not None and time.monotonic() < t_end and rounds < 60:
